@@ -43,6 +43,10 @@ CLAIMS['C09'] = dict(
    text="Theorems (Props/C09.v): the CRC-32 table regenerated from woz.rs equals the reflected polynomial table entry by entry; TD0 sector pack/unpack and IMD track compress/expand are exact inverses for every content and size; the 2MG offsets/lengths written by to_bytes address exactly data, comment and creator. Tie: crc32, crc16 and the IMD track record as serialised must equal the extracted model; impl-side codec oracle on every container: to_bytes -> from_bytes -> to_bytes fixpoint, type/geometry/capacity/kind, every sector, metadata written through put_metadata read back before and after reload (incl. newline and 0x1A values), WOZ CRC32 and 2MG offsets recomputed independently. WOZ/TD0 whole-file parsers are covered by the oracle only (LZHUF is an external crate).",
    technique="Coq proof (CRC table, TD0/IMD codecs, 2MG offsets) + extracted-model correspondence + serialise/reload fixpoint oracle",
    design_ref='DESIGN.md section 5 C09')
+CLAIMS['C13'] = dict(
+   text="Theorems (Props/C13.v): sequence(desequence n d) = d for every byte string and positive chunk length, chunk sizes are exact; the DOS 3.x binary and token headers are exact inverse pairs under the 16-bit guards and packing is refused (error) outside them. Tie: desequence chunking and the DOS headers (incl. 65535/65536-byte inputs) must equal the extracted model. Impl-side oracle: every packer (DOS 3.x, ProDOS, Pascal, CP/M, FAT) x raw/bin/tok/txt/records/JSON round trips over boundary lengths, every load-address class, non-ASCII text, sparse chunk maps, plus a systematic sweep of text sizes around every 256/512/1024 boundary. ProDOS/Pascal/CP-M/FAT converters are covered by the oracle only.",
+   technique="Coq proof (chunking, DOS headers, refusal guards) + extracted-model correspondence + packer round-trip oracle with boundary sweeps",
+   design_ref='DESIGN.md section 5 C13')
 PLANNED = {f'C{i:02d}': 'check not built yet in this round (planned; see DESIGN.md section 10)' for i in range(1, 21)}
 
 def main():
